@@ -1,0 +1,38 @@
+//go:build verif
+
+package method_evaluator
+
+// Contracts for the verification machinery in /verif (comment-only file; compiled
+// only with -tags verif and adds no code).
+
+//@ # ---- C14: keyword arguments are bound by name, so their order at the call site is irrelevant ----
+//@ # Mechanism: checkAndPropagateArgs looks at the arguments and at the declared parameter names
+//@ # only through prioritizeArgTs / prioritizeDefineArgNames, which put the keyword entries last,
+//@ # sorted by key.  (A sorted arrangement of pairwise distinct keys is unique: cited lemma.)
+//@ spec allNonNil(ts) = forall(i, 0 <= i && i < len(ts) ==> ts[i] != nil)
+//@ # (quantified over absolute positions of the backing array so that instantiation needs no arithmetic matching)
+//@ spec sortedByKey(ts, from) = forall(a, forall(b, offof(ts) + from <= a && a < b && b < offof(ts) + len(ts) ==> !(absat(ts, b).key < absat(ts, a).key)))
+//@ spec sortedStrings(ss, from) = forall(a, forall(b, offof(ss) + from <= a && a < b && b < offof(ss) + len(ss) ==> absat(ss, a) <= absat(ss, b)))
+
+//@ func ti/eval/method_evaluator.checkAndPropagateArgs
+//@   nobody
+//@   usesonly[C14] argTs prioritizeArgTs
+//@   usesonly[C14] result-of:GetDefineArgs prioritizeDefineArgNames
+
+//@ func ti/eval/method_evaluator.sortTsByKey
+//@   ensures[C14] result == tList && sortedByKey(result, 0)
+
+//@ func ti/eval/method_evaluator.prioritizeArgTs
+//@   # positional arguments first (order kept), then all keyword entries, sorted by key
+//@   ensures[C14] len(result) == len(otherArgTs) + len(namedArgTs) && len(result) == len(argTs)
+//@   ensures[C14] sortedByKey(result, len(otherArgTs))
+//@   loop 0 invariant -1 <= rangeindex && rangeindex < len(argTs) && len(namedArgTs) + len(otherArgTs) == rangeindex + 1
+
+//@ func ti/eval/method_evaluator.sortStrings
+//@   ensures[C14] result == strList && sortedStrings(result, 0)
+
+//@ func ti/eval/method_evaluator.prioritizeDefineArgNames
+//@   requires forall(i, 0 <= i && i < len(definedArgNames) ==> len(definedArgNames[i]) > 0)
+//@   ensures[C14] len(result) == len(defineArgs) + len(namedDefineArgs) && len(result) == len(definedArgNames)
+//@   ensures[C14] sortedStrings(result, len(defineArgs))
+//@   loop 0 invariant -1 <= rangeindex && rangeindex < len(definedArgNames) && len(namedDefineArgs) + len(defineArgs) == rangeindex + 1
